@@ -10,6 +10,26 @@ EX16_RE = re.compile(r'\(\*\* ([^\n]*?) \*\)\s*\nExample (listing16_\d+) : map s
 EX_RE = re.compile(r'\(\*\* ([^\n]*?) \*\)\s*\nExample (listing_\d+) : map show \(template \((.*?)\)\) =\s*\[(.*?)\]\.', re.S)
 
 
+# further template files: (file, regex kind, declarations the statements are compiled under)
+MORE = [('GenSplit.v', 'slisting', 'stemplate',
+         'superchip unsigned char c, d; superchip unsigned short s, t; superchip unsigned char *p; superchip unsigned char arr[4]; unsigned char a;'),
+        ('GenLoops.v', 'llisting', 'ltemplate', 'unsigned char a, b, c, i;')]
+
+
+def more_listings():
+    """-> list of (example name, C statement, schema term, [expected line texts], declarations)"""
+    out = []
+    for (fn, ex, fun, decl) in MORE:
+        p = os.path.join(COQ, 'Model', fn)
+        if not os.path.exists(p):
+            continue
+        rx = re.compile(r'\(\*\* ([^\n]*?) \*\)\s*\nExample (%s_\d+) : map show \(%s \((.*?)\)\) =\s*\[(.*?)\]\.' % (ex, fun), re.S)
+        for m in rx.finditer(open(p).read()):
+            lines = re.findall(r'"((?:[^"]|"")*)"', m.group(4))
+            out.append((m.group(2), m.group(1).strip(), m.group(3).strip(), [l.replace('""', '"') for l in lines], decl))
+    return out
+
+
 def listing():
     """-> list of (example name, C statement, schema term, [expected line texts])"""
     src = open(os.path.join(COQ, 'Model', 'GenTemplates.v')).read()
@@ -43,10 +63,16 @@ def run_gentpl():
     ls = listing()
     if len(ls) < 30:
         raise HarnessError('cannot find the listing examples of Model/GenTemplates.v (found %d)' % len(ls))
-    jobs = ''.join(compile_job(name, '%s void main() { %s }' % (DECL, stmt), args=['-O0'], want=['funcs']) for (name, stmt, term, exp) in ls)
+    ls = [(n, st, t, e, DECL) for (n, st, t, e) in ls]
+    more = more_listings()
+    for (fn, ex, fun, decl) in MORE:
+        if os.path.exists(os.path.join(COQ, 'Model', fn)) and not any(m[0].startswith(ex) for m in more):
+            raise HarnessError('cannot find the %s examples of Model/%s' % (ex, fn))
+    ls = ls + more
+    jobs = ''.join(compile_job(name, '%s void main() { %s }' % (decl, stmt), args=['-O0'], want=['funcs']) for (name, stmt, term, exp, decl) in ls)
     res = run_ccv(jobs, tag='gentpl')
     mism = []
-    for (name, stmt, term, exp), r in zip(ls, res):
+    for (name, stmt, term, exp, decl), r in zip(ls, res):
         if r.get('status') != 'ok':
             mism.append({'id': name, 'statement': stmt, 'why': 'the statement is rejected: %s' % (r.get('err') or r.get('status'),)})
             continue
